@@ -151,9 +151,38 @@ def run_cli(argv, home=None, timeout=600, cwd=None, extra_env=None, input_bytes=
     return p.returncode, p.stdout.decode("utf-8", "replace"), p.stderr.decode("utf-8", "replace")
 
 
+_SCRATCH_MADE = {}
+
+
 def scratch(tag):
-    d = os.path.join(WORK, "scratch", tag)
+    """A fresh scratch directory that belongs to the calling process (two checks - or two runs of one
+    check - running at the same time must not delete each other's files); removed when that process
+    exits, left-overs of killed runs are pruned after six hours."""
+    import atexit
+    import time as _t
+
+    root = os.path.join(WORK, "scratch")
+    os.makedirs(root, exist_ok=True)
+    pid = os.getpid()
+    d = os.path.join(root, "%s-%d" % (tag, pid))
     if os.path.isdir(d):
-        shutil.rmtree(d)
-    os.makedirs(d)
+        shutil.rmtree(d, ignore_errors=True)
+    os.makedirs(d, exist_ok=True)
+    if pid not in _SCRATCH_MADE:
+        _SCRATCH_MADE[pid] = []
+
+        def _cleanup(owner=pid):
+            if os.getpid() == owner:
+                for x in _SCRATCH_MADE.get(owner, []):
+                    shutil.rmtree(x, ignore_errors=True)
+        atexit.register(_cleanup)
+        try:
+            now = _t.time()
+            for name in os.listdir(root):
+                x = os.path.join(root, name)
+                if now - os.path.getmtime(x) > 6 * 3600:
+                    shutil.rmtree(x, ignore_errors=True) if os.path.isdir(x) else os.unlink(x)
+        except OSError:
+            pass
+    _SCRATCH_MADE[pid].append(d)
     return d
